@@ -15,6 +15,7 @@ import random
 import re
 import shutil
 import sys
+import threading
 from concurrent.futures import ThreadPoolExecutor
 
 sys.path.insert(0, os.path.join(os.path.dirname(os.path.dirname(os.path.abspath(__file__))), "lib"))
@@ -25,6 +26,7 @@ MODULES = ["Scan.tla", "Linear.tla", "SrcText.tla", "Total.tla", "Mutants.tla", 
            "TotalFile.tla", "TotalFile.cfg"]
 FOAMLIB_ARGS = ["-I" + os.path.join(vlib.REPO, "aldor/aldor/lib/libfoamlib/al"),
                 "-Y" + os.path.join(vlib.REPO, "aldor/aldor/lib/libfoamlib/al")]
+_lock = threading.Lock()
 LIGHT_JVM = {"JAVA_TOOL_OPTIONS": "-XX:TieredStopAtLevel=1 -XX:ParallelGCThreads=2"}
 
 
@@ -109,7 +111,9 @@ def enum_family(chk, d, parts, parallel=14, timeout=1500):
     for r in recs:
         b = bytes(r["b"])
         if b not in seen:
-            seen[b] = Input("enum", r["b"], b, r["c"], r["r"], r["f"])
+            # variant 1 goes through the whole front end (-Fao); variants 2 and 3 stop after the syntactic phases (-Fap), so
+            # that a text the parser accepts is not rescued by a type error of the library-less context
+            seen[b] = Input("enum", r["b"], b, r["c"], r["r"], r["f"], kinds=("ao",) if r["v"] == 1 else ("ap",))
     return list(seen.values()), len(recs)
 
 
@@ -124,18 +128,18 @@ def valid_texts(tier, seed):
     import render
     out = []
     if tier == "quick":
-        progs = [progen.ProgGen(7 * 100003 + i, size=6).program("g7_%d" % i) for i in range(6)]
+        progs = [progen.ProgGen(7 * 100003 + i, size=6).program("g7_%d" % i) for i in range(1, 5)]
     else:
-        progs = progen.generate(7, 10) + progen.generate(1000 + seed % 9973, 30)
+        progs = progen.generate(7, 8) + progen.generate(1000 + seed % 9973, 12)
     for p in progs:
         out.append((p["id"], render.render(p).encode(), []))
     tdir = os.path.join(vlib.REPO, "aldor/aldor/test")
     names = sorted(f for f in os.listdir(tdir) if f.endswith(".as"))
     piled = [f for f in names if b"\n#pile" in open(os.path.join(tdir, f), "rb").read()]
-    pick = sorted(piled, key=lambda f: os.path.getsize(os.path.join(tdir, f)))[:6] if tier == "quick" else names
+    pick = sorted(piled, key=lambda f: os.path.getsize(os.path.join(tdir, f)))[:5] if tier == "quick" else names
     for f in pick:
         data = open(os.path.join(tdir, f), "rb").read()
-        if len(data) <= (700 if tier == "quick" else 2500):
+        if len(data) <= (700 if tier == "quick" else 1000):
             out.append(("corpus:" + f, data, FOAMLIB_ARGS))
     return out
 
@@ -148,7 +152,7 @@ def unscan(u):
     return "".join(out).encode("latin-1")
 
 
-def mutant_family(chk, d, texts, stride, cstride, seed, maxquotes, shards=8, timeout=1500):
+def mutant_family(chk, d, texts, stride, cstride, seed, maxquotes, shards=8, timeout=2700):
     jobs = []
     args_of = {}
     groups = [texts[i::shards] for i in range(shards)]
@@ -173,14 +177,20 @@ def mutant_family(chk, d, texts, stride, cstride, seed, maxquotes, shards=8, tim
     return ins
 
 
+_calls = [0]
+
+
 def rejudge(chk, d, inputs, shards=8, timeout=1500):
     """TLC scans the given texts again from their bytes (spec/TotalFile.tla); returns {index: record}."""
+    with _lock:
+        _calls[0] += 1
+        call = _calls[0]
     groups = [list(range(len(inputs)))[i::shards] for i in range(shards)]
     jobs = []
     for gi, g in enumerate(groups):
         if not g:
             continue
-        path = os.path.join(d, "texts%d.json" % gi)
+        path = os.path.join(d, "texts%d_%d.json" % (call, gi))
         with open(path, "w") as fh:
             json.dump([{"id": i, "b": list(inputs[i].data)} for i in g], fh)
         jobs.append(("TotalFile", "TotalFile", {"TEXTS": path}, timeout))
@@ -212,7 +222,8 @@ def dirs_family(chk, d, maxlen, sample=None, rng=None, timeout=1500):
         raise vlib.MachineryError("Directives exported %d soups, expected %d" % (len(recs), total))
     if sample and len(recs) > sample:
         recs = rng.sample(recs, sample)
-    return [Input("dirs", r["l"], b"#assert t\n" + b"".join(DIR_TEXT[x] for x in r["l"]), r["c"], r["r"], r["f"]) for r in recs]
+    return [Input("dirs", r["l"], b"#assert t\n" + b"".join(DIR_TEXT[x] for x in r["l"]), r["c"], r["r"], r["f"], kinds=("ap",))
+            for r in recs]
 
 
 # ---------------------------------------------------------------------------
